@@ -113,18 +113,20 @@ def _convert_internal_expression_to_pddl(
             expression, symbols_map, decimal_digits, should_remove_trailing_zeros
         )
 
-    if isinstance(expression, Pow) and expression.exp == -1:
-        pddl_expression = _convert_internal_expression_to_pddl(
+    if isinstance(expression, Pow) and expression.exp.is_Integer and expression.exp != 0:
+        # an integer power is a repeated product of its base (the reciprocal of it for a negative exponent).
+        base_expression = _convert_internal_expression_to_pddl(
             expression.base,
             SYMPY_OP_TO_PDDL_OP.get(expression.base.func, ""),
             symbols_map,
             decimal_digits,
-            should_remove_trailing_zeros,
+            should_remove_trailing_zeros=False,
         )
-        return f"(/ 1 {pddl_expression})"
+        pddl_expression = base_expression
+        for _ in range(abs(int(expression.exp)) - 1):
+            pddl_expression = f"(* {pddl_expression} {base_expression})"
 
-    if isinstance(expression, Pow) and expression.exp > 1:
-        return _recursive_pow_expression_to_pddl(expression, symbols_map)
+        return pddl_expression if expression.exp > 0 else f"(/ 1 {pddl_expression})"
 
     # the expression is a binary expression with multiple arguments
     components = []
